@@ -166,7 +166,7 @@ class YosysBehavioralRTLIRToVVisitorL1( BehavioralRTLIRToVVisitorL1 ):
       obj = Type.get_object()
       if isinstance( obj, int ):
         nbits = node.Type.get_dtype().get_length()
-        node.sexpr['s_attr'] = f"{nbits}'d{obj}"
+        node.sexpr['s_attr'] = f"{nbits}'d{int(obj)}"
         node.sexpr['s_index'] = ""
       elif isinstance( obj, Bits ):
         # nbits = obj.nbits
@@ -263,7 +263,7 @@ class YosysBehavioralRTLIRToVVisitorL1( BehavioralRTLIRToVVisitorL1 ):
   def visit_FreeVar( s, node ):
     if isinstance( node.obj, int ):
       nbits = node.Type.get_dtype().get_length()
-      return f"{nbits}'d{node.obj}"
+      return f"{nbits}'d{int(node.obj)}"
     elif isinstance( node.obj, Bits ):
       nbits = node.obj.nbits
       value = int( node.obj )
